@@ -127,11 +127,27 @@ func (s *mSub) maySee(r mRec) bool {
 	return true
 }
 
+// mHook is one REGISTRATION (what RegisterHook returned): its own identity, its own query, and the hook value it
+// was made with (hid — what a recorded call names — and that value's behaviour per phase). One hook value may have
+// several registrations; the statement ("a registered hook is called … for exactly the operations … that match its
+// query … no longer called once its cancel returned") is read per registration.
 type mHook struct {
+	rid        string
 	hid        string
 	q          mQuery
 	pg, og, pp string
 	active     bool
+}
+
+func (h *mHook) name() string {
+	if h.rid == h.hid {
+		return "h" + h.hid
+	}
+	return "h" + h.hid + " (registration " + h.rid + ")"
+}
+
+func (h *mHook) beh(phase string) string {
+	return map[string]string{"pg": h.pg, "og": h.og, "pp": h.pp}[phase]
 }
 
 type mCall struct {
@@ -209,6 +225,7 @@ func monitor(c hxlib.Case, outs []string) (vs []hxlib.Violation) {
 			Lines: c.Lines[lo : i+1], Output: tail(outs[lo:i+1], 6)})
 	}
 	kind := ""
+	dbThere := false // is there a database (a controller) the operations of the case can reach?
 	queries := map[string]mQuery{}
 	var subs []*mSub
 	var hooks []*mHook
@@ -220,9 +237,9 @@ func monitor(c hxlib.Case, outs []string) (vs []hxlib.Violation) {
 		}
 		return nil
 	}
-	findHook := func(hid string) *mHook {
+	findReg := func(rid string) *mHook {
 		for _, h := range hooks {
-			if h.hid == hid {
+			if h.rid == rid {
 				return h
 			}
 		}
@@ -254,6 +271,10 @@ func monitor(c hxlib.Case, outs []string) (vs []hxlib.Violation) {
 			if sig, what := monitorCfgOps(l, o); sig != "" {
 				add(i, sig, what)
 			}
+		case "hookdbs":
+			if sig, what := monitorHookDbs(l, o); sig != "" {
+				add(i, sig, what)
+			}
 		case "purgecase":
 			if sig, what := monitorPurge(l, o); sig != "" {
 				add(i, sig, what)
@@ -264,6 +285,11 @@ func monitor(c hxlib.Case, outs []string) (vs []hxlib.Violation) {
 			}
 		case "db":
 			kind = f[1]
+			dbThere = f[1] != "regraw" // a fresh runtime registry is not a database yet
+		case "inject":
+			if o == "ok" {
+				dbThere = true
+			}
 		case "q":
 			queries[f[1]] = mQuery{prefix: unq(f[2]), cond: f[3:]}
 		case "sub":
@@ -277,10 +303,19 @@ func monitor(c hxlib.Case, outs []string) (vs []hxlib.Violation) {
 			}
 		case "hook":
 			if o == "ok" {
-				hooks = append(hooks, &mHook{hid: f[1], q: queries[f[2]], pg: f[3], og: f[4], pp: f[5], active: true})
+				hooks = append(hooks, &mHook{rid: f[1], hid: f[1], q: queries[f[2]], pg: f[3], og: f[4], pp: f[5], active: true})
+			}
+		case "rehook": // the hook value f[2] registered once more, as registration f[1], with its own query
+			if o == "ok" && len(f) == 4 {
+				for _, h := range hooks {
+					if h.hid == f[2] {
+						hooks = append(hooks, &mHook{rid: f[1], hid: f[2], q: queries[f[3]], pg: h.pg, og: h.og, pp: h.pp, active: true})
+						break
+					}
+				}
 			}
 		case "unhook":
-			if h := findHook(f[1]); h != nil && o == "ok" {
+			if h := findReg(f[1]); h != nil && o == "ok" {
 				h.active = false
 			}
 		case "drain", "drain1":
@@ -341,6 +376,21 @@ func monitor(c hxlib.Case, outs []string) (vs []hxlib.Violation) {
 				}
 				s.expect, s.fuzzy, s.pending = nil, false, 0
 			}
+		case "ppushn": // one call of a provider's push function with k records: k pushes by the injected database, in order
+			if o != "ok" || len(f) != 7 {
+				break
+			}
+			k, _ := strconv.Atoi(f[2])
+			n0, _ := strconv.ParseInt(f[4], 10, 64)
+			for j := 0; j < k; j++ {
+				w := mRec{key: f[3], n: n0 + int64(j), s: f[5], flags: flagsOf(unq(f[6])), ok: true}
+				for _, s := range subs {
+					if s.active && s.q.matches(w) && s.maySee(w) && s.pending < feedCapStatement {
+						s.expect = append(s.expect, w.String())
+						s.pending++
+					}
+				}
+			}
 		case "putmany":
 			// Interface.PutMany: a write through an interface — the property demands delivery and pre-put hooks all the same
 			if of[0] != "ok" {
@@ -367,7 +417,18 @@ func monitor(c hxlib.Case, outs []string) (vs []hxlib.Violation) {
 						fmt.Sprintf("Interface.PutMany stored %s but pre-put hook h%s was not called", wm, h.hid))
 				}
 			}
-		case "put", "putnew", "push", "del", "mksec", "mkcj", "exp", "ins", "relexp", "get", "exists":
+		case "put", "putnew", "push", "ppush", "del", "mksec", "mkcj", "exp", "ins", "relexp", "get", "exists":
+			if f[0] == "ppush" { // the push function of one provider of a runtime registry: a push by an injected database
+				if len(f) != 6 {
+					break
+				}
+				f = append([]string{"push"}, f[2:]...)
+			}
+			if !dbThere {
+				// a runtime registry that has not been injected yet: there is no database the statement could talk about
+				// (no subscription or hook can exist, interface operations fail in getController, pushes go nowhere)
+				break
+			}
 			iface := "LI"
 			key := f[1]
 			if f[0] != "push" {
@@ -410,40 +471,78 @@ func monitor(c hxlib.Case, outs []string) (vs []hxlib.Violation) {
 			cur := map[string]string{}
 			for ci := range calls {
 				cl := calls[ci]
-				h := findHook(cl.hid)
 				if vetoed != nil {
 					add(i, "C14:hooks:called-after-veto", fmt.Sprintf("hook h%s called after h%s vetoed", cl.hid, vetoed.hid))
 				}
-				if h == nil || !h.active {
+				var r mRec
+				if cl.phase != "pg" {
+					r = parseRecStr(cl.arg)
+				}
+				// Which registration made this call? A hook value may be registered several times: it is the first
+				// registration of this value, at or after the point the phase has reached, that is active, declares the
+				// phase and whose own query matches the argument. (Fallbacks, each of them a violation: such a
+				// registration before that point; any active registration of the value.)
+				applies := func(h *mHook) bool {
+					if b := h.beh(cl.phase); b == "-" || b == "" {
+						return false
+					}
+					if cl.phase == "pg" {
+						return cl.arg == key && h.q.matchesKey(cl.arg)
+					}
+					return r.ok && h.q.matches(r)
+				}
+				idx, early, anyAt := -1, -1, -1
+				for j, hj := range hooks {
+					if hj.hid != cl.hid || !hj.active {
+						continue
+					}
+					if anyAt < 0 || (anyAt < pos[cl.phase] && j >= pos[cl.phase]) {
+						anyAt = j
+					}
+					if applies(hj) {
+						if j >= pos[cl.phase] {
+							idx = j
+							break
+						}
+						if early < 0 {
+							early = j
+						}
+					}
+				}
+				if anyAt < 0 {
 					add(i, "C14:hooks:called-while-not-registered", "hook h"+cl.hid+" called although it is not registered (cancelled or never registered)")
 					continue
 				}
-				beh := map[string]string{"pg": h.pg, "og": h.og, "pp": h.pp}[cl.phase]
-				if beh == "-" || beh == "" {
+				if idx < 0 {
+					idx = early
+				}
+				if idx < 0 {
+					idx = anyAt
+				}
+				h := hooks[idx]
+				if beh := h.beh(cl.phase); beh == "-" || beh == "" {
 					add(i, "C14:hooks:undeclared-phase", fmt.Sprintf("hook h%s called in phase %s which it does not declare", cl.hid, cl.phase))
 				}
 				if cl.phase == "pg" {
 					if cl.arg != key || !h.q.matchesKey(cl.arg) {
-						add(i, "C14:hooks:key-not-matching", fmt.Sprintf("hook h%s PreGet(%s) although its query does not match the key of the operation", cl.hid, cl.arg))
+						add(i, "C14:hooks:key-not-matching", fmt.Sprintf("hook %s PreGet(%s) although no query it is registered with matches the key of the operation", h.name(), cl.arg))
 					}
 				} else {
-					r := parseRecStr(cl.arg)
 					if !r.ok || !h.q.matches(r) {
-						add(i, "C14:hooks:record-not-matching", fmt.Sprintf("hook h%s %s(%s) although its query does not match the record", cl.hid, cl.phase, cl.arg))
+						add(i, "C14:hooks:record-not-matching", fmt.Sprintf("hook %s %s(%s) although no query it is registered with matches the record", h.name(), cl.phase, cl.arg))
 					}
 					// the chain: the record a hook gets is what the previous hook of the phase returned
 					if want, ok := cur[cl.phase]; ok && want != cl.arg {
 						add(i, "C14:hooks:chain", fmt.Sprintf("hook h%s %s got %s, the previous hook returned %s", cl.hid, cl.phase, cl.arg, want))
 					}
-					// completeness between the previous called hook and this one
-					idx := hookIndex(hooks, cl.hid)
+					// completeness between the previous called registration and this one
 					for j := pos[cl.phase]; j < idx; j++ {
 						if skipped(hooks[j], cl.phase, r) {
-							add(i, "C14:hooks:not-called", fmt.Sprintf("hook h%s declares %s and matches %s but was not called", hooks[j].hid, cl.phase, cl.arg))
+							add(i, "C14:hooks:not-called", fmt.Sprintf("hook %s declares %s and matches %s but was not called", hooks[j].name(), cl.phase, cl.arg))
 						}
 					}
 					if idx < pos[cl.phase] {
-						add(i, "C14:hooks:order", fmt.Sprintf("hook h%s called out of registration order", cl.hid))
+						add(i, "C14:hooks:order", fmt.Sprintf("hook %s called out of registration order (or twice for one registration)", h.name()))
 					}
 					pos[cl.phase] = idx + 1
 					res := r
@@ -451,15 +550,14 @@ func monitor(c hxlib.Case, outs []string) (vs []hxlib.Violation) {
 					cur[cl.phase] = res.String()
 				}
 				if cl.phase == "pg" {
-					idx := hookIndex(hooks, cl.hid)
 					for j := pos["pg"]; j < idx; j++ {
 						hj := hooks[j]
 						if hj.active && hj.pg != "-" && hj.q.matchesKey(key) {
-							add(i, "C14:hooks:not-called", fmt.Sprintf("hook h%s declares PreGet and matches key %s but was not called", hj.hid, key))
+							add(i, "C14:hooks:not-called", fmt.Sprintf("hook %s declares PreGet and matches key %s but was not called", hj.name(), key))
 						}
 					}
 					if idx < pos["pg"] {
-						add(i, "C14:hooks:order", fmt.Sprintf("hook h%s called out of registration order", cl.hid))
+						add(i, "C14:hooks:order", fmt.Sprintf("hook %s called out of registration order (or twice for one registration)", h.name()))
 					}
 					pos["pg"] = idx + 1
 				}
@@ -516,7 +614,7 @@ func monitor(c hxlib.Case, outs []string) (vs []hxlib.Violation) {
 					r := parseRecStr(recStr)
 					for j := pos[ph]; j < len(hooks); j++ {
 						if skipped(hooks[j], ph, r) {
-							add(i, "C14:hooks:not-called", fmt.Sprintf("hook h%s declares %s and matches %s but was not called", hooks[j].hid, ph, recStr))
+							add(i, "C14:hooks:not-called", fmt.Sprintf("hook %s declares %s and matches %s but was not called", hooks[j].name(), ph, recStr))
 						}
 					}
 				}
@@ -690,15 +788,6 @@ func expectExists(get string) string {
 		return strings.TrimSpace("ok true " + strings.Join(f[2:], " "))
 	}
 	return get
-}
-
-func hookIndex(hooks []*mHook, hid string) int {
-	for i, h := range hooks {
-		if h.hid == hid {
-			return i
-		}
-	}
-	return -1
 }
 
 func skipped(h *mHook, phase string, r mRec) bool {
